@@ -654,6 +654,16 @@ class _Gen:
                 if theirs:
                     nm = self.rng.choice(theirs)
             f["typedefs"].append({"name": nm, "type": t})
+        # at least one typedef name shared with an include, with a different base type here, whenever that is possible
+        if self.feat.get("name_collision"):
+            mine = {d["name"] for d in f["typedefs"]}
+            theirs = [(inc, d) for inc in f["includes"] for d in self.program["files"][inc]["typedefs"]
+                      if head_kind(self.program, ["ref", inc, d["name"]]).startswith("base:")]
+            if theirs and not any(d["name"] in mine for _, d in theirs):
+                inc, d = self.rng.choice(theirs)
+                hk = head_kind(self.program, ["ref", inc, d["name"]])
+                other = self.rng.choice([b for b in ("i64", "i32", "string", "double", "i16") if "base:" + b != hk])
+                f["typedefs"].append({"name": d["name"], "type": [other]})
 
     def gen_default(self, fn, t, mod):
         """A default value for a field of type t, or None.  Kept to what generateConstantValue renders correctly."""
@@ -738,6 +748,18 @@ class _Gen:
                     d = {"value": v, "const": None}
                 fid += 1
                 fields.append({"id": fid, "name": "k%d" % self.uid(), "mod": mod, "type": t, "default": d})
+        # a typedef name this file shares with one of its includes: fields of BOTH (the local one and the include's, written
+        # inc.name, alone and inside a container), so that a mix-up of the two shows on the wire whenever they differ
+        mine = {d["name"] for d in f["typedefs"]}
+        for inc in f["includes"]:
+            for d in self.program["files"][inc]["typedefs"]:
+                if d["name"] in mine and head_kind(self.program, ["ref", inc, d["name"]]) != "struct":
+                    for t in (["ref", inc, d["name"]], ["list", ["ref", inc, d["name"]]], ["ref", fn, d["name"]]):
+                        if t[0] == "ref" and t[1] == fn and head_kind(self.program, t) == "struct":
+                            continue
+                        fid += 1
+                        fields.append({"id": fid, "name": "shared%d" % self.uid(), "mod": rng.choice(["default", "optional", "required"]),
+                                       "type": t, "default": None})
         f["structs"].append({"name": self.name(["Sink%d"]), "kind": "struct", "fields": fields})
         # and a union over the same types
         ufields = [{"id": i + 1, "name": "u%d" % self.uid(), "mod": "optional", "type": t, "default": None}
